@@ -7,6 +7,7 @@ import GlonaxModel.Driver.Director
 import GlonaxModel.Driver.Input
 import GlonaxModel.Driver.Bus
 import GlonaxModel.Driver.Authority
+import GlonaxModel.Driver.Tasks
 open Glonax.Driver
 
 def dispatch (prop : String) (inp out : List String) : Verdict :=
@@ -26,7 +27,7 @@ def dispatch (prop : String) (inp out : List String) : Verdict :=
   | "C15" => BusDrv.check inp out
   | "C10" => AuthDrv.check "C10" inp out
   | "C20" => AuthDrv.check "C20" inp out
-  | "C16" => AuthDrv.check "C16" inp out
+  | "C16" => TaskDrv.check inp out
   | "C08" => DrvDrv.check "C08" inp out
   | "C11" => DrvDrv.check "C11" inp out
   | "C12" => DrvDrv.check "C12" inp out
